@@ -136,8 +136,8 @@ def run_partA(name, label, vals, dmode, extra=()):
 B_OPTIONS = ['BoolOpt', 'IntOpt', 'StrOpt', 'CommaOpt', 'LineOpt', 'SocksPort']
 B_INIT = {'BoolOpt': ['0'], 'IntOpt': ['5'], 'StrOpt': ['hello'], 'CommaOpt': ['a,b'], 'LineOpt': ['l1', 'l2 x'], 'SocksPort': ['9050']}
 CHANGES = {
-    'BoolOpt': [['1']],
-    'IntOpt': [['9']],
+    'BoolOpt': [['1'], []],
+    'IntOpt': [['9'], []],
     'StrOpt': [['other text'], [], ['"quoted" text'], ['"all quoted"']],
     'CommaOpt': [['q'], ['q,r'], []],
     'LineOpt': [['m1'], ['m1', 'm2 y'], [], ['m1', 'm2 y', 'm3', 'm4']],
@@ -165,7 +165,7 @@ def events_B():
     return out
 
 
-B_DEFAULTS = {'StrOpt': ['dflt'], 'CommaOpt': ['x,y'], 'LineOpt': ['reject *:25'], 'SocksPort': ['9050']}
+B_DEFAULTS = {'BoolOpt': ['1'], 'IntOpt': ['42'], 'StrOpt': ['dflt'], 'CommaOpt': ['x,y'], 'LineOpt': ['reject *:25'], 'SocksPort': ['9050']}
 
 
 class RunB(object):
@@ -216,10 +216,9 @@ class RunB(object):
             sim.pump()
         elif ev[0] == 'changed':
             name = ev[1]
-            if name in self.dirty:
-                # an external change racing an unsaved local edit of the same option: whose value wins is not defined
-                self.skip = True
-                return
+            # an external change racing an unsaved local edit of the same option: what a later save sends is not defined
+            # (not explored further), but the read right after the event shows what Tor announced
+            raced = name in self.dirty
             vals = CHANGES[name][ev[2]]
             sim.conf[name] = list(vals)            # another controller changed Tor's configuration
             lines = ['']
@@ -230,6 +229,11 @@ class RunB(object):
             sim.event_bytes(ctlcodec.encode_event('CONF_CHANGED', 'multi', lines))
             sim.pump()
             self.dirty.discard(name)
+            if raced:
+                self.check()
+                self.viol = [(c, f + '/local-edit-pending', d) for c, f, d in self.viol]
+                self.skip = True
+                return
         elif ev[0] == 'edit':
             name = ev[1]
             kind = TYPES[name][1]
@@ -313,9 +317,41 @@ class RunB(object):
                 tuple(sorted(self.dirty)), impl.cfg.needs_save())
 
 
+def run_reassert(name, how):
+    """the application writes a list option back with a Python list - the value it just read (Tor reports no change for
+    that, so no CONF_CHANGED follows) or a new one on a Tor that sends no CONF_CHANGED - saves, and goes on editing it in
+    place: the option is still a tracked list"""
+    viol = []
+    with World() as w:
+        impl = CfgImpl(w, [(n, B_INIT[n]) for n in B_OPTIONS])
+        cfg, sim = impl.cfg, impl.sim
+        if impl.boot != ['ok']:
+            return dict(viol=[('bootstrap-failed', 'reassert', repr(impl.boot))], obs=('x',), log=[])
+        cur = [str(x) for x in getattr(cfg, name)]
+        new = list(cur) if how == 'same' else cur + ['9077' if name == 'SocksPort' else 'zz']
+        setattr(cfg, name, list(new))
+        cfg.save().addErrback(lambda f: None)
+        sim.pump()
+        got = impl.read(name)
+        feat = TYPES[name][1] if name != 'SocksPort' else 'portlines'
+        if shape(got) != 'tracked-list':
+            viol.append(('list-not-tracked', '%s/after-assign-and-save/%s' % (feat, how), 'after %s = %r and save() the option reads as %s %r'
+                         % (name, new, shape(got), norm(got))))
+        else:
+            getattr(cfg, name).append('9078' if name == 'SocksPort' else 'yy')
+            if not cfg.needs_save():
+                viol.append(('list-not-tracked', '%s/after-assign-and-save/%s/append' % (feat, how), 'append() after assign+save left needs_save() False'))
+        errs = w.errors()
+        if errs and not viol:
+            viol.append(('logged-error', errs[0][1], '%r' % (errs[:1],)))
+        obs = (shape(got), repr(norm(got)))
+    return dict(viol=viol, obs=obs, log=['%s = %r (%s); save; append' % (name, new, how)])
+
+
 def tasks(tier, seed):
     out = [('A', i, i + 12) for i in range(0, len(partA_cases()), 12)]
     out.append(('A2',))
+    out.append(('reassert',))
     for i in range(len(events_B())):
         out.append(('B', i, False))
         out.append(('B', i, True))
@@ -323,6 +359,12 @@ def tasks(tier, seed):
 
 
 def run_task(param, acc):
+    if param[0] == 'reassert':
+        for name in ('CommaOpt', 'LineOpt', 'SocksPort'):
+            for how in ('same', 'new'):
+                r = run_reassert(name, how)
+                rec(acc, ('reassert', name, how), r, dict(part='reassert', name=name, how=how), 2)
+        return
     if param[0] == 'A':
         cases = partA_cases()[param[1]:param[2]]
         for name, label, vals, dmode in cases:
@@ -357,6 +399,8 @@ def run_task(param, acc):
                     h2 = hist + (ev,)
                     r = RunB(h2, wd)
                     if r.skip:
+                        if r.viol:
+                            recB(acc, h2, r, wd)
                         continue
                     recB(acc, h2, r, wd)
                     last = (h2, r)
@@ -389,6 +433,9 @@ def recB(acc, hist, r, wd=False):
 
 
 def replay(p):
+    if p.get('part') == 'reassert':
+        r = run_reassert(p['name'], p['how'])
+        return dict(violations=[dict(signature='%s/%s' % (c, f), what=d) for c, f, d in r['viol']], log=r['log'])
     if p['part'] == 'A':
         r = run_partA(p['name'], p['label'], tuple(p['vals']), p['dmode'], tuple(p['extra']))
         return dict(violations=[dict(signature='%s/%s' % (c, f), what=d) for c, f, d in r['viol']], log=r['log'])
@@ -409,7 +456,7 @@ def meta(tier):
              'append+save probe after a change event on a list option. non-trivial: all of A; B histories of >= 2 events'
              % (3 if tier == 'quick' else 4),
         bounds=dict(options=len(ONE), partB_depth=(3 if tier == 'quick' else 4)),
-        assumptions=['a CONF_CHANGED for an option that has an unsaved local edit is not explored (which value wins is undefined)',
+        assumptions=['after a CONF_CHANGED for an option that has an unsaved local edit the read must show Tor\'s value; what a later save sends is not explored (undefined)',
                      'unset is only explored for option types Tor can leave NULL (String, Filename, CommaList, RouterList, '
                      'LineList, ports); "set to the empty string" is not explored',
                      'config/defaults values are unquoted "Name value" lines, as the repository\'s fixtures assume',
